@@ -11,7 +11,8 @@ LEVEL = "exploration"
 TECHNIQUE = (
     "exhaustive integer N vs exact Fraction nested sums; random complex N: one-step recurrences with flipped parity "
     "flag, mpmath polygamma/Hurwitz references, conjugation; mpmath.quad (rotated contour) of the docstring "
-    "integrals; random permutations of the 31 cache keys vs direct evaluation"
+    "integrals; random permutations of the 31 cache keys (flag on every call / flag only on parity dependent keys) "
+    "vs direct evaluation; ekore functions on a fresh cache vs on a directly pre-filled cache"
 )
 RULE = (
     "Enumerated part: every integer N=1..60 x parity flag in {matching bool, None}: all 19 sums (S1..S5, S-1..S-5, "
@@ -22,8 +23,14 @@ RULE = (
     "lower sums from mpmath, S+-1..+-5 at N and N+1 against mpmath digamma/Hurwitz-zeta forms, S(conj N) = conj "
     "S(N), Im S = 0 on the real axis; kind 'mellin' = one of 9 g-functions or 14 log-functions at complex N against "
     "mpmath.quad of its docstring integral plus conjugation; kind 'cache' = random permutation of all 31 cache "
-    "keys on a fresh cache at complex N with one flag: every returned value, the final cache content and a second "
-    "lookup against direct evaluation. Non-trivial = integer N not among the values pinned by the suite "
+    "keys on a fresh cache at complex N with one flag, under two calling conventions: 'uniform' (flag on every "
+    "call, as test_cache.py) and 'ekore' (the convention of the code base: flag only on the 11 parity dependent "
+    "keys S-1..S-5, S2-1, S-21, S-2-1, S-31, S-22, S-211, every plain key requested without a flag): every returned "
+    "value, the final cache content and a second lookup against direct evaluation; kind 'down' = one of 12 ekore "
+    "functions that mix plain and parity dependent lookups on one cache (as3 matching elements A_qqNS eta=+-1, A_Hg, "
+    "A_Hq, A_gg, A_gq, A_qg; as2 A_hg unpolarised / polarised; N3LO gamma_nss_nf2, gamma_qg_nf3; time-like "
+    "gamma_gg^(1); polarised gamma_nss^(2)) evaluated on a fresh shared cache vs on a cache in which all 31 keys "
+    "were supplied by direct evaluation. Non-trivial = integer N not among the values pinned by the suite "
     "{1,2,3,10} / complex N with |Im N|>1 (every rec case covers weight>=3, alternating and nested sums); "
     "distinct by full case."
 )
@@ -41,6 +48,11 @@ ASSUMPTIONS = [
     "domain is the property's: Re N in [0.5,50], |Im N|<=60; a single parity flag per cache (mixed flags on one "
     "cache are outside the statement); flag=None ((-1)^N evaluated numerically) only at integer N",
     "quadrature references with an mpmath error estimate above 1e-9 are discarded and counted",
+    "'consistent parity flag' is read as: one and the same flag on every parity dependent lookup of a cache; "
+    "plain keys may be requested without flag (that is how all of ekore calls them), which must not change any "
+    "later flagged lookup",
+    "downstream differential: relative 1e-9 (measured on the unchanged tree <= 1e-12; the functions are sums "
+    "with O(1e3) cancellations); N within 1e-3 of the pole N=1 is discarded",
 ]
 LEVEL_TEXT = (
     "Integer N=1..60 is decided exhaustively against exact rationals; complex N, lookup orders and the Mellin "
@@ -61,6 +73,28 @@ CACHE_KEYS = [
     "g3p2",
 ]  # fmt: skip
 
+
+# keys whose value depends on the parity flag; every other key is requested WITHOUT a flag all over ekore
+# (c.get(c.S21, cache, n) etc., > 20 call sites), the parity dependent ones with is_singlet=...
+PARITY_KEYS = {"Sm1", "Sm2", "Sm3", "Sm4", "Sm5", "S2m1", "Sm21", "Sm2m1", "Sm31", "Sm22", "Sm211"}
+
+# real ekore functions that look up plain and parity dependent keys on one cache: name -> (module, function,
+# argument kinds after (n, cache), parity flag used inside the function; None = taken from eta)
+DOWNSTREAM = {
+    "ome_us.as3.A_qqNS": ("ekore.operator_matrix_elements.unpolarized.space_like.as3.aqqNS", "A_qqNS", "nf,L,eta", None),
+    "ome_us.as3.A_Hg": ("ekore.operator_matrix_elements.unpolarized.space_like.as3.aHg", "A_Hg", "nf,L", True),
+    "ome_us.as3.A_Hq": ("ekore.operator_matrix_elements.unpolarized.space_like.as3.aHq", "A_Hq", "nf,L", True),
+    "ome_us.as3.A_gg": ("ekore.operator_matrix_elements.unpolarized.space_like.as3.agg", "A_gg", "nf,L", True),
+    "ome_us.as3.A_gq": ("ekore.operator_matrix_elements.unpolarized.space_like.as3.agq", "A_gq", "nf,L", True),
+    "ome_us.as3.A_qg": ("ekore.operator_matrix_elements.unpolarized.space_like.as3.aqg", "A_qg", "nf,L", True),
+    "ome_us.as2.A_hg": ("ekore.operator_matrix_elements.unpolarized.space_like.as2", "A_hg", "L", True),
+    "ome_ps.as2.A_hg": ("ekore.operator_matrix_elements.polarized.space_like.as2", "A_hg", "L", False),
+    "ad_us.as4.gamma_nss_nf2": ("ekore.anomalous_dimensions.unpolarized.space_like.as4.gnsv", "gamma_nss_nf2", "", False),
+    "ad_us.as4.gamma_qg_nf3": ("ekore.anomalous_dimensions.unpolarized.space_like.as4.gqg", "gamma_qg_nf3", "", True),
+    "ad_ut.as2.gamma_gg": ("ekore.anomalous_dimensions.unpolarized.time_like.as2", "gamma_gg", "nf_first", True),
+    "ad_ps.as3.gamma_nss": ("ekore.anomalous_dimensions.polarized.space_like.as3", "gamma_nss", "nf_first", True),
+}  # fmt: skip
+TOL_DOWN = 1e-9
 
 # ------------------------------------------------------------------------------------------ code under test
 
@@ -261,7 +295,16 @@ def _check_cache(case, res):
     N = complex(*case["N"])
     flag = _flag(case)
     order = [int(i) for i in case["order"]]
-    res.classes = ["cache", f"singlet={flag}"] + _classes_n(N)
+    conv = case.get("conv", "uniform")
+    res.classes = ["cache", "conv=" + conv, f"singlet={flag}"] + _classes_n(N)
+
+    def get(nm):
+        # "uniform": the flag on every call (tests/ekore/harmonics/test_cache.py); "ekore": the calling convention
+        # of the code base, flag only on the parity dependent keys, plain keys without any flag
+        if conv == "uniform" or nm in PARITY_KEYS:
+            return c.get(getattr(c, nm), cache, N, flag)
+        return c.get(getattr(c, nm), cache, N)
+
     res.nontrivial = abs(N.imag) > 1
     if sorted(order) != list(range(len(CACHE_KEYS))):
         raise ValueError("generator must produce a permutation of the 31 keys")
@@ -276,7 +319,7 @@ def _check_cache(case, res):
     for i in order:
         nm = CACHE_KEYS[i]
         try:
-            v = c.get(getattr(c, nm), cache, N, flag)
+            v = get(nm)
         except Exception as e:  # noqa: BLE001
             return res.fail(exc_bucket(f"{ID}/cache/get/{nm}", e), f"get({nm}) after {seen}: {e!r}")
         seen.append(nm)
@@ -284,7 +327,7 @@ def _check_cache(case, res):
         if not abs(v - direct[nm]) <= tol:
             res.fail(
                 f"{ID}/cache/{nm}",
-                f"cache.get({nm}, N={N}, is_singlet={flag}) = {v!r} after lookups {seen[:-1]}; direct evaluation "
+                f"cache.get({nm}, N={N}, is_singlet={flag}, convention={conv}) = {v!r} after lookups {seen[:-1]}; direct evaluation "
                 f"{direct[nm]!r} (|diff| {abs(v - direct[nm]):.3e})",
             )
     # final content and second lookup
@@ -298,17 +341,69 @@ def _check_cache(case, res):
         if not abs(stored - direct[nm]) <= tol:
             res.fail(
                 f"{ID}/cache/stored/{nm}",
-                f"cache[{nm}] = {stored!r} after all lookups (order {seen}); direct {direct[nm]!r}",
+                f"cache[{nm}] = {stored!r} after all lookups (convention={conv}, is_singlet={flag}, N={N}, order "
+                f"{seen}); direct {direct[nm]!r}",
             )
-        again = c.get(k, cache, N, flag)
+        again = get(nm)
         if again != stored:
             res.fail(f"{ID}/cache/second/{nm}", f"second get({nm}) = {again!r} != stored {stored!r}")
+    return res
+
+
+def _check_down(case, res):
+    import importlib
+
+    import numpy as np
+    from ekore.harmonics import cache as c
+
+    N = complex(*case["N"])
+    name = case["fn"]
+    mod, fn, argkind, flag = DOWNSTREAM[name]
+    eta = int(case["eta"])
+    if flag is None:
+        flag = eta == 1
+    res.classes = ["down", name] + _classes_n(N)
+    res.nontrivial = abs(N.imag) > 1
+    if abs(N - 1) < 1e-3:
+        return CaseResult(discarded="pole at N=1")
+    f = getattr(importlib.import_module(mod), fn)
+    nf, L = int(case["nf"]), float(case["L"])
+
+    def call(cache):
+        if argkind == "nf,L,eta":
+            return f(N, cache, nf, L, eta)
+        if argkind == "nf,L":
+            return f(N, cache, nf, L)
+        if argkind == "L":
+            return f(N, cache, L)
+        if argkind == "nf_first":
+            return f(N, nf, cache)
+        return f(N, cache)
+
+    try:
+        direct = _direct_keys(N, flag)
+        full = c.reset()
+        for nm in CACHE_KEYS:
+            full[getattr(c, nm)] = direct[nm]
+        ref = complex(call(full))  # every lookup is answered by a directly evaluated value
+        val = complex(call(c.reset()))  # the function fills the shared cache itself, in its own order
+    except Exception as e:  # noqa: BLE001
+        return res.fail(exc_bucket(f"{ID}/down/{name}", e), f"{name} at N={N}: {e!r}")
+    if not (np.isfinite(val) and abs(val - ref) <= TOL_DOWN * max(abs(ref), 1e-300)):
+        res.fail(
+            f"{ID}/down/{name}",
+            f"{name}(N={N}, nf={nf}, L={L}, eta={eta}) = {val!r} on a fresh shared cache but {ref!r} when every "
+            f"harmonic sum is supplied by direct evaluation (is_singlet={flag}); rel diff "
+            f"{abs(val - ref) / max(abs(ref), 1e-300):.3e}",
+        )
     return res
 
 
 def check_case(case):
     res = CaseResult()
     kind = case["kind"]
+    if kind == "down":
+        return _check_down(case, res)
     if kind == "int":
         return _check_int(case, res)
     if kind == "rec":
@@ -375,11 +470,22 @@ def strategy(tier):
                 "N": n,
                 "singlet": st.booleans(),
                 "order": st.permutations(list(range(len(CACHE_KEYS)))),
+                "conv": st.sampled_from(["uniform", "ekore", "ekore"]),
+            }
+        ),
+        "down": st.fixed_dictionaries(
+            {
+                "kind": st.just("down"),
+                "fn": st.sampled_from(list(DOWNSTREAM)),
+                "N": n,
+                "nf": st.integers(3, 5),
+                "L": st.sampled_from([0.0, -2.0, 1.5]),
+                "eta": st.sampled_from([1, -1]),
             }
         ),
     }
     # weights: a g-function quadrature costs 0.2-0.7 s, a log-function one 0.05 s, rec 0.04 s, cache 5 ms
-    kinds = ["rec"] * 26 + ["cache"] * 10 + ["g"] * 2 + ["lm"] * 2
+    kinds = ["rec"] * 22 + ["cache"] * 12 + ["down"] * 6 + ["g"] * 2 + ["lm"] * 2
     return st.sampled_from(kinds).flatmap(lambda k: sub[k])
 
 
